@@ -502,8 +502,15 @@ def reverse_attribute_aliases(repo, ref):
                     continue
                 ch = _chain(st.targets[0])
                 L = st.value.id
-                if ch is None or len(ch) != 2 or ch[0] != "self" or L in ref_locals or L in nested or L in fi.params:
+                if ch is None or len(ch) != 2 or L in ref_locals or L in nested or L in fi.params:
                     continue
+                R = ch[0]
+                if R != "self":
+                    # another receiver: a name of the function that is bound once (a parameter, or a local with one binding in
+                    # front of the statement) and not captured by a nested scope
+                    rb = [x for x in walk_own(fi.node) if isinstance(x, ast.Name) and x.id == R and isinstance(x.ctx, (ast.Store, ast.Del))]
+                    if R in nested or R == L or not ((R in fi.params and not rb) or (R not in fi.params and len(rb) == 1 and _pos(rb[0]) < _pos(st))):
+                        continue
                 X = ch[1]
                 # a local that is itself an alias of an attribute chain (salt = msg.salt) is put back by inline_new_aliases instead
                 binds = [x for x in walk_own(fi.node) if isinstance(x, ast.Name) and x.id == L and isinstance(x.ctx, ast.Store)]
@@ -540,7 +547,7 @@ def reverse_attribute_aliases(repo, ref):
                     if reach & bad_fns:
                         continue
                 for x in loads:
-                    _install(x, ast.parse("self.%s" % X, mode="eval").body)
+                    _install(x, ast.parse("%s.%s" % (R, X), mode="eval").body)
                 done.setdefault(q, []).append(L)
     if done:
         _clear_analysis_caches()
@@ -1145,6 +1152,16 @@ def inline_new_temporaries(repo, ref):
                     for r in roots:
                         if any(x is use for x in ast.walk(r)):
                             root = r
+                    if root is None and ((isinstance(st.value, ast.Dict) and not st.value.keys) or (isinstance(st.value, (ast.List, ast.Tuple)) and not st.value.elts)
+                                         or isinstance(st.value, ast.Constant)):
+                        # an empty display or a constant reads nothing and does nothing: it may be evaluated at its single use
+                        # further down the same block just as well
+                        for j in range(i + 2, len(blk)):
+                            for r in _header_nodes(blk[j]):
+                                if any(x is use for x in ast.walk(r)):
+                                    root, nxt = r, blk[j]
+                            if root is not None:
+                                break
                     if root is None:
                         continue
                     anc = _ancestors(use, getattr(root, "_parent", None))
